@@ -218,7 +218,8 @@ REPLAY = {'vectors': eval_vector, 'reload': eval_reload}
 
 def run(report):
     if report.tier == 'quick':
-        cases = [(0, c) for c in itertools.product(MENU_Q, repeat=4)]
+        # (the pooled choices on the worker and its component, the plain ones on the two ports: 10 x 10 x 6 x 6)
+        cases = [(0, c) for c in itertools.product(MENU_Q, MENU_Q, MENU_T, MENU_T)]
         cases += [(1, c) for c in itertools.product(('none', 'LC@d1', 'LC@d2'), repeat=6)]
         cases += [(2, c) for c in itertools.product(MENU_T, repeat=4)]
         cases += [(3, c) for c in itertools.product(('none', 'LC@d1', 'LC@d2', 'L@d1,C@d2'), repeat=4)]
